@@ -1,0 +1,26 @@
+//go:build verif
+
+package server
+
+// Verification hook H5 (build tag verif): events and scheduling gates of the prefork master.
+//   VerifPMEvent(ev, pid, state, refCount, nChilds, n)  - emitted by the goroutine that performs the step:
+//       "started"/"exited" (spawn loop / wait goroutine), "add"/"update"/"del" (maintainChildState, after the
+//       case body; n = number of processes the step decided to spawn)
+//   VerifPMGate(point, pid, state) - called before cmd.Start ("spawn-start") and before the three channel sends
+//       ("send-add", "send-update", "send-del"); may block.
+// With the tag off, verif_off.go provides empty functions.
+
+var VerifPMEvent func(ev string, pid int, state uint8, refCount int, nChilds int, n int)
+var VerifPMGate func(point string, pid int, state uint8)
+
+func verifPM(ev string, pid int, state uint8, refCount int, nChilds int, n int) {
+	if VerifPMEvent != nil {
+		VerifPMEvent(ev, pid, state, refCount, nChilds, n)
+	}
+}
+
+func verifPMGate(point string, pid int, state uint8) {
+	if VerifPMGate != nil {
+		VerifPMGate(point, pid, state)
+	}
+}
